@@ -213,6 +213,17 @@ pub fn run(ctx: &Ctx, st: &mut Stats) {
     if stride == 1 {
         st.mark_exhaustive("dates x critical-times", &format!("all 3,652,059 dates x {} critical times of day", nt));
     }
+    // pool dates x bit-structured times of day
+    let bts = bit_times();
+    let dpool = date_pool();
+    let (bts_ref, dpool_ref) = (&bts, &dpool);
+    let bstep = ctx.tier.pick(97, 1, 1);
+    ctx.par(st, "pool dates x bit-structured times (k*2^j +-1 us from either midnight)", true, 0, (dpool.len() * bts.len()) as i64 / bstep, |st, i, _| {
+        let i = i * bstep;
+        let n = dpool_ref[(i as usize) / bts_ref.len()] as i64;
+        let t = bts_ref[(i as usize) % bts_ref.len()];
+        st.eval(&C::ab(K::Pair, n, t), check);
+    });
     let nr = ctx.tier.pick(2_000, 2_000_000, 40_000_000);
     ctx.par(st, "dates x random-times", false, 0, nr, |st, _, rng| {
         let n = rng.range_i64(MIN_DAY as i64, MAX_DAY as i64);
